@@ -49,7 +49,7 @@ var c03Places = []string{"body", "li", "blockquote", "layout-td", "data-td", "bo
 
 func init() {
 	register(&Prop{
-		ID: "C03",
+		ID:   "C03",
 		Rule: "even cases: random G-article pages whose paragraphs use only text, <br>, attribute-free b/i/em/strong/span/u/code/font, links and javascript: links; odd cases: the enumeration of all child sequences of length <=4 over {text, br, inline, link, js-link with one text child, js-link with other children} (1554 sequences) x 8 placements (body, li, blockquote, layout td, data td, loose text directly in <body>, loose text in a <div>, under 20..420 nested wrapper divs), each as one paragraph inside a small article, with paragraph lengths chosen around the keep/drop boundary. Non-trivial = a simple paragraph observed fully kept or fully dropped; distinct = distinct (placement, child-sequence shape, kept/dropped).",
 		Assumptions: []string{
 			"'visible word of the paragraph' = token the generator wrote into that <p>",
